@@ -232,9 +232,20 @@ def analyse_unit(unit, repo, scratch, tier, seed, cfg):
             if d.get("level") != "error": continue
             for s in spans_in_file(d, vname):
                 for ln in range(s[0], s[1] + 1): failed_lines.add(ln)
-        vfns = {}
+        # a resource-limit hit inside a probed function means the solver could not derive false within its budget:
+        # not vacuous as far as it could tell; recorded as inconclusive, not as a pass of the probe
+        vtab = extract.fn_table(vtext)
+        rl_fns = set()
+        for d in vac["diags"]:
+            if d.get("level") == "error" and RLIMIT_PAT.search(d.get("message", "")):
+                for s in spans_in_file(d, vname):
+                    for f in vtab:
+                        if f["line_start"] <= s[0] <= f["line_end"]: rl_fns.add((f["name"], f["line_start"]))
+        vprobe["inconclusive_rlimit"] = sorted(n for n, _ in rl_fns)
         for (name, line, has_req) in probes:
             if line in failed_lines: vprobe["rejected"] += 1
+            elif any(n == name and any(f["name"] == n and f["line_start"] == ls and f["line_start"] <= line <= f["line_end"] for f in vtab) for n, ls in rl_fns):
+                vprobe["rejected"] += 1
             else: vprobe["vacuous"].append(name)
         if vprobe["vacuous"]:
             # a probe not rejected: contradictory precondition / inconsistent assumptions, or rlimit in that fn
@@ -320,6 +331,17 @@ def main():
                 if hit: masked.append((f, hit))
                 else: violations.append(f)
             undecided += er.get("undecided", [])
+        # known findings that are PROVED to be present (a defect lemma over the contracts of the real code verifies)
+        defect_notes = []
+        for dl in pcfg.get("defect_lemmas", []):
+            ent = [e for e in known if e["id"] == dl["finding"] and e.get("status") == "known"]
+            proved = False
+            for r in results:
+                if r["unit"] != dl["unit"]: continue
+                for fb in r.get("function_breakdown") or []:
+                    if fb["function"].split("::")[-1] == dl["function"] and fb.get("success") and fb.get("mode") == "proof": proved = True
+            if ent and proved: masked.append(({"unit": dl["unit"], "function": dl["function"], "clause": "defect lemma verified"}, ent[0]))
+            elif ent: defect_notes.append("defect lemma %s did not verify: finding %s may no longer be present" % (dl["function"], dl["finding"]))
         obligations = sum(r.get("verified", 0) + r.get("errors", 0) for r in results)
         discharged = sum(r.get("verified", 0) for r in results)
         wall = time.time() - t0
@@ -359,9 +381,10 @@ def main():
                            "generated_sha256": r.get("gen_sha256"), "status": r["status"]} for r in results],
                 "functions_under_contract": functions,
                 "bounded": [b for r in results for b in r.get("bounded", [])] + [b for er in extra_results for b in er.get("bounded", [])],
-                "masked_by_known_findings": [{"finding": e["id"], "function": f.get("function"), "clause": f.get("clause")} for f, e in masked],
+                "masked_by_known_findings": [dict({"finding": e["id"], "function": f.get("function"), "clause": f.get("clause")},
+                                                  **{k: f[k] for k in ("harness", "witness") if f.get(k)}) for f, e in masked],
                 "failed_obligations_outside_this_property": [{"function": f.get("function"), "tags": f.get("tags"), "message": f.get("message")} for f in others],
-                "undecided": undecided,
+                "undecided": undecided, "notes": defect_notes,
                 "not_decided_parts": pcfg.get("not_decided", []),
                 "exhaustive": False,
             },
@@ -382,15 +405,18 @@ def main():
             import replay
             os.makedirs(os.path.join(ROOT, "replay", "out"), exist_ok=True)
             rp = os.path.join(ROOT, "replay", "out", "%s-%d.json" % (prop, int(time.time())))
-            witness = None
+            # a back end may attach a witness it has already replayed on the real crate (Kani counterexample): honour it
+            witness = next((f["witness"] for f in violations if (f.get("witness") or {}).get("found")), None)
             try:
-                witness = replay.find_witness(prop, violations, a.repo, scratch)
+                if witness is None: witness = replay.find_witness(prop, violations, a.repo, scratch)
             except Exception as e:
                 witness = {"found": False, "error": repr(e)}
             json.dump({"property": prop, "failed_obligations": violations, "witness": witness,
                        "verifier_output": [r.get("raw_stderr") for r in results if r.get("raw_stderr")]}, open(rp, "w"), indent=1)
             for f in violations[:10]:
                 print("FAILED-OBLIGATION unit=%s fn=%s msg=%r clause=%r at %s" % (f.get("unit"), f.get("function"), f.get("message"), (f.get("clause") or "")[:160], f.get("repo_location")))
+            if witness and witness.get("found") and witness.get("inputs") is not None:
+                print("WITNESS %s inputs=%s observed=%s expected=%s" % (witness.get("harness", ""), json.dumps(witness["inputs"]), witness.get("observed"), witness.get("expected")))
             suffix = "" if (witness and witness.get("found")) else " no-failing-input-found"
             print("VIOLATION property=%s replay=%s%s" % (prop, rp, suffix))
             sys.exit(1)
